@@ -57,6 +57,13 @@ PKBins = P.make_peer(KBinsDiscretizer)
 PKNNReg = P.make_peer(KNeighborsRegressor)
 
 
+def warm_logreg():
+    """An inner classifier whose fit starts from its previous state (real
+    scikit-learn warm start, few iterations): a meta-estimator that fits the
+    object it was given instead of a clone then depends on earlier fits."""
+    return PLogReg(warm_start=True, max_iter=3)
+
+
 class PerplexityPCA(PPCA):
     """Stands for TSNE (which is far too slow here): a transformer with
     ``fit_transform`` and a ``perplexity`` parameter that PredictableTSNE has
@@ -147,6 +154,10 @@ def draw_data(ch, kind, label="A", n_lo=6, n_hi=40, allow_weights=True, n_min=No
             y = numpy.array(["ant", "bee", "cat"])[lab]
         desc["labels"] = ltype
         desc["classes"] = int(len(set(lab.tolist())))
+    if kind == "clu" and ch.boolean("w", 0.3, "ignored-y" + label):
+        # scikit-learn clusterers accept (and ignore) y; pipelines pass it
+        y = rs.randint(0, 4, n).astype(numpy.int32 if ch.boolean("w", 0.5, "y32" + label) else numpy.int64)
+        desc["ignored_y"] = str(y.dtype)
     w = None
     if allow_weights and ch.boolean("w", 0.3, "weights" + label):
         w = numpy.round(rs.rand(n) * 3 + 0.25, 3)
@@ -313,7 +324,7 @@ class SPiecewiseClassifier(Spec):
 
     def draw(self, ch):
         cfg = _binner(ch, "clf")
-        cfg["local"] = ch.choice("w", ["logreg", "tag", "tree"], "local")
+        cfg["local"] = ch.choice("w", ["logreg", "tag", "tree", "warm"], "local")
         cfg["n_jobs"] = ch.choice("w", [None, 2, 3], "n_jobs")
         cfg["random_state"] = ch.choice("w", [None, 0, 7], "rs")
         cfg["verbose"] = ch.weighted("w", [(False, 4), (True, 1)], "verbose")
@@ -322,7 +333,7 @@ class SPiecewiseClassifier(Spec):
     frame_ok = True
 
     def build(self, cfg):
-        local = {"logreg": PLogReg(max_iter=60), "tag": P.TagClassifier(), "tree": PTreeClf(max_depth=2, random_state=0)}[cfg["local"]]
+        local = {"logreg": PLogReg(max_iter=60), "tag": P.TagClassifier(), "tree": PTreeClf(max_depth=2, random_state=0), "warm": warm_logreg()}[cfg["local"]]
         return PiecewiseClassifier(binner=_mk_binner(cfg, True), estimator=local, n_jobs=cfg["n_jobs"], random_state=cfg["random_state"], verbose=cfg.get("verbose", False))
 
     def observables(self, est, cfg):
@@ -387,6 +398,7 @@ class SDecisionTreeLogReg(Spec):
             "algo": ch.choice("w", ["auto", "none", "intercept_sort", "intercept_sort_always"], "algo"),
             # "If float, then min_samples_split is a fraction" (documented)
             "min_samples_split": ch.weighted("w", [(2, 3), (4, 1), (0.25, 2), (0.4, 1)], "mss"),
+            "inner": ch.weighted("w", [("logreg", 3), ("warm", 1)], "inner"),
         }
 
     def fragile_rows(self, est, Xb):
@@ -408,7 +420,7 @@ class SDecisionTreeLogReg(Spec):
 
     def build(self, cfg):
         return DecisionTreeLogisticRegression(
-            estimator=PLogReg(max_iter=60),
+            estimator=warm_logreg() if cfg.get("inner") == "warm" else PLogReg(max_iter=60),
             max_depth=cfg["max_depth"],
             min_samples_leaf=cfg["min_samples_leaf"],
             min_samples_split=cfg.get("min_samples_split", 2),
@@ -451,6 +463,8 @@ class SKMeansL1L2(Spec):
     def fit_args(self, data, cfg=None):
         # non-uniform weights with norm L1 are documented as not implemented
         kw = {"sample_weight": data.w} if data.w is not None and (cfg or {}).get("norm") == "L2" else {}
+        if data.y is not None:
+            return (data.X, data.y), kw  # y is "ignored, present for API consistency"
         return (data.X,), kw
 
 
@@ -493,6 +507,8 @@ class SConstraintKMeans(Spec):
 
     def fit_args(self, data, cfg=None):
         kw = {"sample_weight": data.w} if data.w is not None else {}
+        if data.y is not None:
+            return (data.X, data.y), kw  # y is "Ignored"
         return (data.X,), kw
 
 
@@ -504,10 +520,11 @@ class SClassifierAfterKMeans(Spec):
     n_min = 10
 
     def draw(self, ch):
-        return {"C": ch.choice("w", [1.0, 0.3], "C"), "k": ch.integer("w", 1, 2, "k"), "rs": ch.choice("w", [0, 5, None], "rs")}
+        return {"C": ch.choice("w", [1.0, 0.3], "C"), "k": ch.integer("w", 1, 2, "k"), "rs": ch.choice("w", [0, 5, None], "rs"), "inner": ch.weighted("w", [("logreg", 3), ("warm", 1)], "inner")}
 
     def build(self, cfg):
-        return ClassifierAfterKMeans(estimator=PLogReg(C=cfg["C"], max_iter=80), clus=PKMeans(n_clusters=cfg["k"], n_init=2, random_state=cfg["rs"]))
+        est = warm_logreg() if cfg.get("inner") == "warm" else PLogReg(C=cfg["C"], max_iter=80)
+        return ClassifierAfterKMeans(estimator=est, clus=PKMeans(n_clusters=cfg["k"], n_init=2, random_state=cfg["rs"]))
 
 
 class SIntervalRegressor(Spec):
@@ -585,7 +602,7 @@ class STransformedTargetClassifier2(Spec):
     rowwise = ("predict", "predict_proba")
 
     def draw(self, ch):
-        return {"local": ch.choice("w", ["logreg", "tree", None], "local"), "transformer": ch.choice("w", ["permute", "object-rs1", "object-rs7"], "tr")}
+        return {"local": ch.choice("w", ["logreg", "tree", None], "local"), "transformer": ch.choice("w", ["permute", "object-rs1", "object-rs7", "object-rs0"], "tr")}
 
     def build(self, cfg):
         from mlinsights.mlmodel import PermutationReciprocalTransformer
